@@ -38,6 +38,10 @@ def snap_digest(snap):
     return h.hexdigest()
 
 
+class AbortWorld(Exception):
+    """An execution after the twin hit the event cap: the whole world is dropped (counted, never judged)."""
+
+
 _MAIN = {}
 
 
@@ -151,6 +155,8 @@ class WorldJob(object):
             rec = world.execute(self.entry, self.root, self.abs_cwd(), self.cmd.argv, self.full_env(env), self.cmd.stdin,
                                 self.listing_seed, faults)
         post = world.snapshot(self.root)
+        if rec.get('exc') == 'WorldTooHeavy' and self.stats['runs'] > 0:
+            raise AbortWorld()
         self.stats['runs'] += 1
         self.stats['events'] += len(rec['events'])
         for f in rec['fired']:
@@ -910,6 +916,9 @@ def run_world_job(spec):
     job = WorldJob(spec)
     try:
         job.run_all()
+    except AbortWorld:
+        job.stats['worlds_too_heavy'] = 1
+        job.violations = []
     finally:
         world.rmtree(job.root)
     pre, rec, post, t0 = job.twin
